@@ -4,6 +4,7 @@ def b_DynamicObstacle_create_occupancy_node : CR.SrcW.Builder where
   kind := .node
   tag := "occupancySet"
   xsd := "dynamicObstacle/occupancySet"
+  path := []
   parent := ""
   attrs := []
   gattrs := []
